@@ -23,7 +23,8 @@ SPEC = {
     ("Async.RateLimitProofs", "rl_cb_not_early"), ("Async.TimedWindowProofs", "tw_cb_not_early"),
     ("Async.PartitionTOProofs", "partition_cb_not_early"), ("Async.MapAsyncProofs", "map_async_cb_not_early"),
     ("Async.ZipBPProofs", "zip_cb_not_early_buffered"), ("Async.ZipBPProofs", "zip_cb_early_refuted"),
-    ("Async.Plain", "plain_cb_early_refuted")]),
+    ("Async.Plain", "plain_cb_early_refuted"), ("Base.BridgeRefCounter", "bridge_rc_release_async"),
+    ("Base.BridgeRefCounter", "bridge_rc_retain_async")]),
  "C08": ("time windows conserve elements and honour their deadline",
    [("Async.TimedWindowProofs", "tw_conserve"), ("Async.TimedWindowProofs", "tw_unique_keys"),
     ("Async.TimedWindowProofs", "tw_deadline"), ("Async.TimedWindowProofs", "tw_sync_never_awaits"),
@@ -34,7 +35,8 @@ SPEC = {
    [("Async.RateLimitProofs", "rl_spacing"), ("Async.RateLimitProofs", "rl_fifo"), ("Async.RateLimitProofs", "rl_idle_no_delay"),
     ("Async.RateLimitProofs", "rl_done_sync"), ("Async.RateLimitProofs", "rl_sleepers_spaced"),
     ("Async.RateLimitProofs", "rl_idle_no_sleepers"), ("Async.DelayProofs", "delay_fifo"), ("Async.DelayProofs", "delay_done"),
-    ("Async.DelayProofs", "delay_times_sorted"), ("Async.DelayProofs", "delay_no_stall")]),
+    ("Async.DelayProofs", "delay_times_sorted"), ("Async.DelayProofs", "delay_no_stall"),
+    ("Base.BridgeRateLimit", "bridge_rl_next"), ("Base.BridgeRateLimit", "bridge_rl_delivery")]),
  "C14": ("latest delivers an in-order subsequence ending with the newest element",
    [("Async.LatestProofs", "latest_subseq"), ("Async.LatestProofs", "latest_final"), ("Async.LatestProofs", "latest_done")]),
  "C05A": ("asynchronous part of C05: count = holders at every quiescent point of every schedule",
